@@ -289,11 +289,27 @@ func (p *ParserZH) setStmtCurrentLine(s syntax.Statement, tk *syntax.Token) {
 
 // wrap 0x2250 InvalidSyntaxCurr - with current token's startIdx
 func (p *ParserZH) getInvalidSyntaxCurr() error {
+	// the very first token may be the offending one: there is no current token yet
+	if p.TokenP1 == nil {
+		startIdx := 0
+		if p.TokenP2 != nil {
+			startIdx = p.TokenP2.StartIdx
+		}
+		return zerr.InvalidSyntax(startIdx)
+	}
 	startIdx := p.TokenP1.StartIdx
 	return zerr.InvalidSyntax(startIdx)
 }
 
 func (p *ParserZH) getInvalidSyntaxPeek() error {
+	// the very first token may be the offending one: there is no current token yet
+	if p.TokenP1 == nil {
+		startIdx := 0
+		if p.TokenP2 != nil {
+			startIdx = p.TokenP2.StartIdx
+		}
+		return zerr.InvalidSyntax(startIdx)
+	}
 	startIdx := p.TokenP1.StartIdx
 	if p.TokenP2 != nil {
 		startIdx = p.TokenP2.StartIdx
@@ -303,6 +319,14 @@ func (p *ParserZH) getInvalidSyntaxPeek() error {
 }
 
 func (p *ParserZH) getUnexpectedIndentPeek() error {
+	// the very first token may be the offending one: there is no current token yet
+	if p.TokenP1 == nil {
+		startIdx := 0
+		if p.TokenP2 != nil {
+			startIdx = p.TokenP2.StartIdx
+		}
+		return zerr.UnexpectedIndent(startIdx)
+	}
 	startIdx := p.TokenP1.StartIdx
 	if p.TokenP2 != nil {
 		startIdx = p.TokenP2.StartIdx
@@ -312,6 +336,14 @@ func (p *ParserZH) getUnexpectedIndentPeek() error {
 }
 
 func (p *ParserZH) getExprMustTypeIDPeek() error {
+	// the very first token may be the offending one: there is no current token yet
+	if p.TokenP1 == nil {
+		startIdx := 0
+		if p.TokenP2 != nil {
+			startIdx = p.TokenP2.StartIdx
+		}
+		return zerr.ExprMustTypeID(startIdx)
+	}
 	startIdx := p.TokenP1.StartIdx
 	if p.TokenP2 != nil {
 		startIdx = p.TokenP2.StartIdx
